@@ -320,6 +320,9 @@ func (m *machine) intBuiltin(name string, k wgen.Kind, a []Value) Value {
 		return Value{B: max(x, a[1].B)}
 	case "clamp":
 		// min(max(e, low), high)
+		if (signed && int32(a[1].B) > int32(a[2].B)) || (!signed && a[1].B > a[2].B) {
+			m.ev.ClampInv++
+		}
 		if signed {
 			return Value{B: uint32(min(max(int32(x), int32(a[1].B)), int32(a[2].B)))}
 		}
@@ -340,11 +343,17 @@ func (m *machine) intBuiltin(name string, k wgen.Kind, a []Value) Value {
 	case "firstTrailingBit":
 		return Value{B: FirstTrailingBit(x)}
 	case "extractBits":
+		if a[1].B > 32 || a[2].B > 32-min(a[1].B, 32) {
+			m.ev.BitsClamp++
+		}
 		if signed {
 			return Value{B: uint32(ExtractBitsI(int32(x), a[1].B, a[2].B))}
 		}
 		return Value{B: ExtractBitsU(x, a[1].B, a[2].B)}
 	case "insertBits":
+		if a[2].B > 32 || a[3].B > 32-min(a[2].B, 32) {
+			m.ev.BitsClamp++
+		}
 		return Value{B: InsertBits(x, a[1].B, a[2].B, a[3].B)}
 	case "sign":
 		if int32(x) > 0 {
